@@ -24,6 +24,10 @@ const OPS: &[(&str, &[Callback])] = &[
     ("clone", &[Callback::Clone]),
     ("clonefrom-smaller", &[Callback::Clone, Callback::Drop]),
     ("clonefrom-larger", &[Callback::Clone, Callback::Drop]),
+    // destination tables with fewer rows than the source's but enough spare capacity (a used, then
+    // cleared world) / with exactly the source's rows: the column loop neither truncates nor reallocates
+    ("clonefrom-cleared", &[Callback::Clone, Callback::Drop]),
+    ("clonefrom-same", &[Callback::Clone, Callback::Drop]),
     ("drop", &[Callback::Drop]),
     ("eq", &[Callback::Eq]),
     ("debug", &[Callback::Debug]),
@@ -50,6 +54,10 @@ fn cb_name(c: Callback) -> &'static str {
 struct Setup {
     a: <F as Family>::W,
     b: <F as Family>::W,
+    /// every table of `a` with twice the rows, then cleared (tables and capacity stay)
+    d: <F as Family>::W,
+    /// the tables of `a` with the same number of rows, other values
+    e: <F as Family>::W,
     ids: Vec<Id>,
 }
 
@@ -60,6 +68,8 @@ fn build(seed: u64) -> Setup {
     let mut val = || { next += 1; next };
     let mut a = F::new_world(&[val(), val(), val()]);
     let mut b = F::new_world(&[val(), val(), val()]);
+    let mut d = F::new_world(&[val(), val(), val()]);
+    let mut e = F::new_world(&[val(), val(), val()]);
     let shapes: [&[u8]; 4] = [&[0, 2, 3], &[0, 2], &[2, 3, 0, 1], &[3, 0]];
     let mut ids = Vec::new();
     let na = 2 + rng.below(4);
@@ -67,14 +77,21 @@ fn build(seed: u64) -> Setup {
         let s = shapes[rng.below(4) as usize];
         let v: Vec<u64> = s.iter().map(|_| val()).collect();
         ids.push(F::insert(&mut a, s, &v).unwrap().verif_parts());
+        for _ in 0..2 {
+            let v: Vec<u64> = s.iter().map(|_| val()).collect();
+            F::insert(&mut d, s, &v);
+        }
+        let v: Vec<u64> = s.iter().map(|_| val()).collect();
+        F::insert(&mut e, s, &v);
     }
+    F::clear(&mut d);
     let nb = rng.below(4);
     for _ in 0..nb {
         let s = shapes[rng.below(4) as usize];
         let v: Vec<u64> = s.iter().map(|_| val()).collect();
         F::insert(&mut b, s, &v);
     }
-    Setup { a, b, ids }
+    Setup { a, b, d, e, ids }
 }
 
 /// Run the chosen op; user-code panics propagate to the caller (`catch_unwind` outside).
@@ -93,6 +110,8 @@ fn run_op(op: &str, s: &mut Setup, rng: &mut Rng) {
         "clone" => { let c = F::clone_world(&s.a); drop(c); }
         "clonefrom-smaller" => F::clone_from(&mut s.b, &s.a),
         "clonefrom-larger" => F::clone_from(&mut s.a, &s.b),
+        "clonefrom-cleared" => F::clone_from(&mut s.d, &s.a),
+        "clonefrom-same" => F::clone_from(&mut s.e, &s.a),
         "drop" => { let w = std::mem::replace(&mut s.a, F::new_world(&[1, 2, 3])); drop(w); }
         "eq" => { let c = F::clone_world(&s.a); let _ = F::eq(&s.a, &c); drop(c); }
         "debug" => { let _ = F::debug(&s.a); }
@@ -122,6 +141,8 @@ fn run_op(op: &str, s: &mut Setup, rng: &mut Rng) {
 fn post_use(s: &mut Setup) {
     let _ = F::rows(&mut s.a);
     let _ = F::rows(&mut s.b);
+    let _ = F::rows(&mut s.d);
+    let _ = F::rows(&mut s.e);
     for id in s.ids.clone() {
         let i = mk_ident(id);
         let _ = F::contains(&s.a, i);
@@ -129,6 +150,8 @@ fn post_use(s: &mut Setup) {
         let _ = F::chain(&mut s.a, i, &[(3, 0, 0), (3, 2, 0), (3, 3, 0)]);
         let _ = F::write(&mut s.a, i, 0, 990);
         let _ = F::chain(&mut s.b, i, &[(3, 0, 0), (3, 2, 0)]);
+        let _ = F::chain(&mut s.d, i, &[(3, 0, 0), (3, 2, 0)]);
+        let _ = F::chain(&mut s.e, i, &[(3, 0, 0), (3, 3, 0)]);
     }
     for id in s.ids.clone() {
         F::remove(&mut s.a, mk_ident(id));
